@@ -79,6 +79,13 @@ META = {
         assumptions=COMMON_ASSUME + ["an SSH connection presents one user name with several passwords (x/crypto/ssh client)", "LDAP gates are judged until the first successful non-anonymous bind"],
         deadline_quick=900, deadline_thorough=3400,
     ),
+    "C11": dict(
+        rule="(a) services/filesystem.Htfs driven directly: explicit-state BFS over reachable working directories (state = Cwd(); root is constant; successors by replaying the shortest ChangeDir path on a fresh object), in every state RealPath(p) and ChangeDir(p) for all 7,810 paths over components {a,b,..,.,''} with <=5 components, relative and absolute; (b) every operation of the exported ftp.NewFileDriver (Stat, ListDir, MakeDir, DeleteDir, DeleteFile, PutFile, PutFile-append, GetFile, ChangeDir, Rename x 8 targets) with all 310 paths of <=3 components in each of the 3 reachable states, on a fixture whose sentinel tree (names from the same alphabet) lies beside and above the root; (c) FTP sessions through the real server in a bubble: all command sequences of length <=2 over 116 commands (CWD/MKD/RMD/DELE/MDTM/SIZE/RNFR+RNTO x 14 paths, CDUP, PWD) and length 3 starting with a directory change (third command a directory change; thorough: any). Oracle: RealPath lexically inside the root; Cwd()/PWD rooted, clean and inside the root; the tree outside the root (names, modes, sizes, hashes) unchanged after every operation; no read returns sentinel content.",
+        bounds_quick="paths <=5 components (a), <=3 (b); sessions length 2, length 3 = change-dir x any x change-dir",
+        bounds_thorough="sessions length 3 = change-dir x any x any",
+        assumptions=COMMON_ASSUME + ["the root contains no symlinks leaving it", "data-connection commands (STOR/APPE/RETR/LIST/NLST) reach the filesystem only through the driver operations enumerated in (b)"],
+        deadline_quick=900, deadline_thorough=3400,
+    ),
 }
 
 NOT_APPLICABLE = {}
